@@ -226,13 +226,20 @@ def handle (op : String) (req : Json) : R Json := do
       && noNulEnd v07 && (version07Ok v07 || !cmpGe v07 v060)
       && noNulEnd ((dictGet L.info kName).getD [])
     let ren (f : NpzFile) : NpzFile := if legacy then f.mapCls legacyOf else f
-    pure (jObj [("model", jObj [("v06", jRes ((saveV06 id v06 L).map ren >>= load id p)),
-                                ("v07", jRes ((saveV07 id v07 L).map ren >>= load id p)),
-                                ("v08", jRes (save id ver time L >>= load id p))]),
+    -- an old file brought up to date: load it, save the loaded object, load again
+    let again (r : Except Err Laser) : Except Err Laser := r >>= fun L1 => save id ver time L1 >>= load id p
+    let m06 := (saveV06 id v06 L).map ren >>= load id p
+    let m07 := (saveV07 id v07 L).map ren >>= load id p
+    let hypR := hyp && infoNoNul L.info && noNulEnd p.stem
+    pure (jObj [("model", jObj [("v06", jRes m06), ("v07", jRes m07),
+                                ("v08", jRes (save id ver time L >>= load id p)),
+                                ("v06r", jRes (again m06)), ("v07r", jRes (again m07))]),
                 ("spec", jObj [("v06", jRes (specOld true p v06 L)),
                                ("v07", jRes (specOld false p v07 L)),
-                               ("v08", jRes (.ok (normalise p ver L)))]),
-                ("hyp", jBool hyp)])
+                               ("v08", jRes (.ok (normalise p ver L))),
+                               ("v06r", jRes ((specOld true p v06 L).map (normalise p ver))),
+                               ("v07r", jRes ((specOld false p v07 L).map (normalise p ver)))]),
+                ("hyp", jBool hyp), ("hyp_resave", jBool hypR)])
   | "c01.crossclass" =>
     -- a file saved from `L` whose header names the class `cls`: compared with the code only
     let L ← fld req "laser" >>= asLaser
